@@ -62,7 +62,7 @@ CodeOf(c) ==
   CASE c = "hi" -> 233 [] c = "ls" -> 8232 [] c = "bad" -> 65533 [] c = "fffd" -> 65533 [] c = "del" -> 127 [] c = "emoji" -> 128512
     [] c = " " -> 32 [] c = "a" -> 97 [] c = "b" -> 98 [] c = "e" -> 101 [] c = "f" -> 102 [] c = "l" -> 108 [] c = "n" -> 110
     [] c = "r" -> 114 [] c = "s" -> 115 [] c = "t" -> 116 [] c = "u" -> 117 [] c = "d" -> 100 [] c = "c" -> 99
-    [] c = "E" -> 69 [] c = "A" -> 65
+    [] c = "E" -> 69 [] c = "A" -> 65 [] c = "i" -> 105
     [] c = "{" -> 123 [] c = "}" -> 125 [] c = "[" -> 91 [] c = "]" -> 93 [] c = ":" -> 58 [] c = "," -> 44
     [] c = "-" -> 45 [] c = "+" -> 43 [] c = "." -> 46 [] c = "/" -> 47 [] c = "<" -> 60 [] c = ">" -> 62 [] c = "&" -> 38
     [] c \in Digits -> 48 + DigitVal(c)
@@ -187,7 +187,7 @@ RawOf(cp) ==
   CASE cp = 233 -> "hi" [] cp = 65533 -> "fffd" [] cp = 127 -> "del" [] cp = 128512 -> "emoji"
     [] cp = 32 -> " " [] cp = 97 -> "a" [] cp = 98 -> "b" [] cp = 101 -> "e" [] cp = 110 -> "n" [] cp = 117 -> "u"
     [] cp = 65 -> "A" [] cp = 47 -> "/" [] cp = 123 -> "{" [] cp = 58 -> ":" [] cp = 44 -> "," [] cp = 48 -> "0" [] cp = 49 -> "1" [] cp = 57 -> "9"
-    [] cp = 45 -> "-"
+    [] cp = 45 -> "-" [] cp = 116 -> "t" [] cp = 114 -> "r" [] cp = 108 -> "l" [] cp = 115 -> "s" [] cp = 102 -> "f" [] cp = 105 -> "i"
 \* code point -1 stands for a byte that is not valid UTF-8: written as the escape of U+FFFD (a real U+FFFD is written raw)
 EncChar(cp) ==
   CASE cp = -1 -> <<"\\", "u", "f", "f", "f", "d">>
